@@ -66,6 +66,11 @@ def failing():
     c = peers.ServerCfg(banner=b'SSH-1.5-OldServer_1.2', ssh1={'cmask': 0x48, 'amask': 0x1c}, wrong_version_text=b'Protocol major versions differ.')
     c['mutate'] = _mut(None, 'pkm', lambda d: [d[:-1] + bytes([d[-1] ^ 0x55])])
     F['bad-ssh1-crc'] = ('server', c)
+    c = peers.ServerCfg(banner=b'SSH-1.5-OldServer_1.2', ssh1={'cmask': 0x48, 'amask': 0x1c}, wrong_version_text=b'Protocol major versions differ.', refuse_after=1)
+    F['ssh1-fallback-refused'] = ('server', c)
+    c = peers.ServerCfg(banner=b'SSH-1.5-OldServer_1.2', ssh1={'cmask': 0x48, 'amask': 0x1c}, wrong_version_text=b'Protocol major versions differ.')
+    c['mutate'] = _mut(2, 'banner', lambda d: [fakenet.EOF])
+    F['ssh1-fallback-closed'] = ('server', c)
     c = peers.ServerCfg(base); c['mutate'] = _mut(2, 'kexreply', lambda d: [bytes(reversed(d))])
     F['probe-garbage'] = ('server', c)
     c = peers.ServerCfg(base); c['mutate'] = _mut(2, 'kexreply', lambda d: [struct.pack('>I', struct.unpack('>I', d[:4])[0] + 3) + d[4:], fakenet.EOF])
